@@ -130,6 +130,11 @@ def run(run: Run):
     fspecs = forge.forge_all(run.rng, jobs, prefix="c02f")
     forge.report_incomplete(run, jobs)
     sessions.run_sessions(run, fspecs, lambda r, s, o: forge.oracle(r, s, o), relevant=1 | 4 | 8 | 32, name="c02f")
+    # soundness inside a batch: a proof must not be acceptable because the batch weights can be known before the responses are chosen.  The adaptive
+    # weight attacks of C08 with a small budget: weights read off an honest run, pairs of defects cancelling under them, and "a changed response
+    # changes every weight ratio of its proof"
+    from props import c08
+    c08.adaptive(run, 4 if run.tier == "quick" else 40, prefix="c02w", big=False)
     return run.finish(
         "proof",
         "honest proofs on the configuration lattice, single-element mutations of them (scalars, points, round structure) and statements shifted "
